@@ -21,7 +21,8 @@ static struct le_rcv RCV;
 static struct le_frcv FRCV;
 
 enum { SL_source, SL_final, SL_error };
-#define STARTED_INIT (/*@EXPR le_started_init*/)
+/* default member initialiser of started_ (a member without initialiser stays nondeterministic) */
+#define STARTED_INIT_INTO(lhs) do { _Bool vf_i /*@EXPR le_started_init*/; (lhs) = vf_i; } while (0)
 
 #define VF_NSLOT 3
 #define VF_OP_T struct le_op
@@ -78,7 +79,7 @@ static _Bool EV_invoke_and_connect(struct le_op* op, int s) {
 /* _op::type constructor: func_, receiver_ from the mem-initialiser list, started_ from its default member initialiser (extracted),
  * then the body connects the source into sourceOp_. */
 void le_op_ctor(struct le_op* self)
-__CPROVER_requires(self == &OP && FRESH && VF_ALL_NONE && G.running == -1 && self->started_ == STARTED_INIT)
+__CPROVER_requires(self == &OP && FRESH && VF_ALL_NONE && G.running == -1)   /* started_ holds whatever its default member initialiser gave it (harness) */
 __CPROVER_assigns(A_ALL)
 __CPROVER_ensures(G.throws == 0 ==> (OP_AFTER_CTOR && VF_DESTRUCTIBLE(&OP) && G.acts[SL_source] == 1))   /* C02: the operation may be destroyed without being started: ~type() destroys sourceOp_ */
 __CPROVER_ensures(G.throws != 0 ==> (VF_ALL_NONE && G.acts[SL_source] == 0))                     /* connect threw: nothing constructed (the exception leaves connect(); ~type() does not run) */
@@ -173,7 +174,7 @@ static void h_havoc(void) {
   RCV.op_ = &OP; FRCV.op_ = &OP;
 }
 void h_le_ctor(void) {
-  h_havoc(); le_op_ctor(&OP);
+  h_havoc(); STARTED_INIT_INTO(OP.started_); le_op_ctor(&OP);
   VF_CANARY("after the constructor");
   if (G.throws) { VF_CANARY("connect(source) can throw"); } else { VF_CANARY("constructor can succeed"); }
 }
@@ -258,9 +259,9 @@ void lemma_le_lifecycle(void) {
   VF_P((o.so == LS_STARTED || o.fi == LS_STARTED) ==> (t == T_SRC_CALLS || t == T_FIN_CALLS), "lemma: while a child runs the operation only waits for it");
 }
 void lemma_le_init(void) {
-  struct lst i; i.st = STARTED_INIT; i.so = LS_ALIVE; i.fi = LS_NONE; i.er = LS_NONE; i.aso = 1; i.afi = 0; i.aer = 0; i.dso = 0; i.dfi = 0; i.der = 0; i.completed = 0; i.destroyed = 0;
+  struct lst i; STARTED_INIT_INTO(i.st); i.so = LS_ALIVE; i.fi = LS_NONE; i.er = LS_NONE; i.aso = 1; i.afi = 0; i.aer = 0; i.dso = 0; i.dfi = 0; i.der = 0; i.completed = 0; i.destroyed = 0;
   VF_CANARY("lemma_le_init reachable");
-  VF_P(STARTED_INIT == 0, "lemma: a fresh operation is not started");
+  VF_P(i.st == 0, "lemma: a fresh operation is not started");
   VF_P(L_REACH(i) && L_DISCR_OK(i), "lemma: a freshly constructed operation satisfies the life-cycle invariant and may be destroyed unstarted");
 }
 
@@ -275,7 +276,8 @@ static struct ld_frcv FRCV;
 static _Bool VF_CFG_nothrow;     /* std::is_nothrow_invocable_v<Done> && is_nothrow_connectable_v<final_sender_t, final_receiver> */
 
 enum { SL_source, SL_final };
-#define STARTEDOP_INIT (/*@EXPR ld_startedOp_init*/)
+/* default member initialiser of startedOp_ (a member without initialiser stays nondeterministic) */
+#define STARTEDOP_INIT_INTO(lhs) do { int vf_i /*@EXPR ld_startedOp_init*/; (lhs) = vf_i; } while (0)
 
 #define VF_NSLOT 2
 #define VF_OP_T struct ld_op
@@ -324,7 +326,7 @@ static _Bool EV_invoke_and_connect(struct ld_op* op, int s) { return EV_activate
 /* _op::type constructor: done_, receiver_ from the mem-initialiser list, startedOp_ from its default member initialiser (extracted),
  * then the body connects the source into sourceOp_ and records it in startedOp_. */
 void ld_op_ctor(struct ld_op* self)
-__CPROVER_requires(self == &OP && FRESH && VF_ALL_NONE && G.running == -1 && self->startedOp_ == STARTEDOP_INIT)
+__CPROVER_requires(self == &OP && FRESH && VF_ALL_NONE && G.running == -1)   /* startedOp_ holds whatever its default member initialiser gave it (harness) */
 __CPROVER_assigns(A_ALL)
 __CPROVER_ensures(G.throws == 0 ==> (OP_AFTER_CTOR && VF_DESTRUCTIBLE(&OP) && G.acts[SL_source] == 1))   /* C02: the discriminator names sourceOp_: the operation may be destroyed without being started */
 __CPROVER_ensures(G.throws != 0 ==> (VF_ALL_NONE && G.acts[SL_source] == 0))                     /* connect threw: nothing constructed (the exception leaves connect(); ~type() does not run) */
@@ -412,7 +414,7 @@ static void h_havoc(void) {
   VF_CFG_nothrow = vf_nb();
 }
 void h_ld_ctor(void) {
-  h_havoc(); ld_op_ctor(&OP);
+  h_havoc(); STARTEDOP_INIT_INTO(OP.startedOp_); ld_op_ctor(&OP);
   VF_CANARY("after the constructor");
   if (G.throws) { VF_CANARY("connect(source) can throw"); } else { VF_CANARY("constructor can succeed"); }
 }
@@ -491,7 +493,8 @@ void lemma_ld_lifecycle(void) {
   VF_P((o.so == LS_STARTED || o.fi == LS_STARTED) ==> (t == T_SRC_CALLS || t == T_FIN_CALLS), "lemma: while a child runs the operation only waits for it");
 }
 void lemma_ld_init(void) {
+  int st0; STARTEDOP_INIT_INTO(st0);
   VF_CANARY("lemma_ld_init reachable");
-  VF_P(STARTEDOP_INIT == 0, "lemma: a fresh operation's discriminator says `nothing alive` until the constructor body has connected the source");
+  VF_P(st0 == 0, "lemma: a fresh operation's discriminator says `nothing alive` until the constructor body has connected the source");
 }
 #endif
